@@ -574,6 +574,9 @@ def restart(ctx):
             def __hash__(self):
                 return hash(self.name)
 
+            def __lt__(self, o):          # paths order by their text: 'log-10.lammps' < 'log-2.lammps'
+                return self.name < str(o)
+
             def __format__(self, spec):
                 return self.name
 
